@@ -1,2 +1,319 @@
-//! Harnesses that need ClientConductor's private state (child module of client_conductor.rs via hook H3).
+//! Harnesses that need ClientConductor's private state (child module of client_conductor.rs via hook H3):
+//! C11 (liveness timing), C10 (fault survival), C09 (registration protocol), C12 (image lifecycle / linger).
+//! The conductor is built by STRUCT LITERAL (ClientConductor::new does not leave symex in 20 minutes), with a real
+//! DriverProxy over a real ManyToOneRingBuffer, real counters buffers and recording fn-pointer handlers.
 #![allow(dead_code, unused_imports, unused_variables, unused_mut)]
+use super::*;
+use crate::concurrent::atomic_buffer::AtomicBuffer;
+use crate::concurrent::ring_buffer::{self, ManyToOneRingBuffer};
+use crate::utils::errors::{AeronError, DriverInteractionError, GenericError};
+use crate::verif_kani::publog::dummy_conductor;
+use crate::verif_kani::util::*;
+use std::collections::HashMap;
+use std::hash::RandomState;
+
+pub const RING_CAP: usize = 128; // data area; max command length = 16 bytes, enough for remove/keepalive-size commands
+pub const RING_LEN: usize = RING_CAP + 768;
+
+/// What the recording handlers saw. One static with a distinctive non-zero field (Kani merges all-zero statics).
+pub struct Seen {
+    magic: u64,
+    pub now: u64,
+    pub errors: u32,
+    pub last_error: u32,
+    pub closes: u32,
+    pub new_pubs: u32,
+    pub new_subs: u32,
+    pub avail_counters: u32,
+    pub unavail_counters: u32,
+    pub last_id: i64,
+    pub last_counter_id: i32,
+}
+pub static mut SEEN: Seen = Seen { magic: 0x5a5a_c0bd_0c70_0001, now: 0, errors: 0, last_error: 0, closes: 0, new_pubs: 0, new_subs: 0,
+    avail_counters: 0, unavail_counters: 0, last_id: 0, last_counter_id: 0 };
+
+pub const E_SERVICE_TIMEOUT: u32 = 1;
+pub const E_DRIVER_INACTIVE: u32 = 2;
+pub const E_HEARTBEAT_NOT_ACTIVE: u32 = 3;
+pub const E_CLIENT_TIMEOUT: u32 = 4;
+pub const E_OTHER: u32 = 9;
+
+fn clock() -> Moment {
+    unsafe { SEEN.now }
+}
+fn on_error(e: AeronError) {
+    let code = match &e {
+        AeronError::Generic(GenericError::TimeoutBetweenServiceCallsOverTimeout(_)) => E_SERVICE_TIMEOUT,
+        AeronError::DriverTimeout(DriverInteractionError::WasInactive(_)) => E_DRIVER_INACTIVE,
+        AeronError::Generic(GenericError::ClientHeartbeatNotActive) => E_HEARTBEAT_NOT_ACTIVE,
+        AeronError::ClientTimeoutException => E_CLIENT_TIMEOUT,
+        _ => E_OTHER,
+    };
+    unsafe {
+        SEEN.errors += 1;
+        SEEN.last_error = code;
+    }
+    std::mem::forget(e);
+}
+fn on_new_pub(ch: CString, _stream: i32, _session: i32, id: i64) {
+    unsafe {
+        SEEN.new_pubs += 1;
+        SEEN.last_id = id;
+    }
+    std::mem::forget(ch);
+}
+fn on_new_sub(ch: CString, _stream: i32, id: i64) {
+    unsafe {
+        SEEN.new_subs += 1;
+        SEEN.last_id = id;
+    }
+    std::mem::forget(ch);
+}
+fn on_avail_counter(_r: &CountersReader, id: i64, counter_id: i32) {
+    unsafe {
+        SEEN.avail_counters += 1;
+        SEEN.last_id = id;
+        SEEN.last_counter_id = counter_id;
+    }
+}
+fn on_unavail_counter(_r: &CountersReader, id: i64, counter_id: i32) {
+    unsafe {
+        SEEN.unavail_counters += 1;
+        SEEN.last_id = id;
+        SEEN.last_counter_id = counter_id;
+    }
+}
+fn on_close() {
+    unsafe { SEEN.closes += 1 }
+}
+
+pub fn stub_random_state() -> RandomState {
+    unsafe { std::mem::transmute::<[u64; 2], RandomState>([0x1234_5678, 0x9abc_def0]) }
+}
+
+pub struct Bufs {
+    pub ring: Mem<RING_LEN>,
+    pub cmeta: Mem<1024>, // two counter slots
+    pub cvals: Mem<256>,
+}
+
+impl Bufs {
+    pub fn new() -> Bufs {
+        Bufs { ring: Mem::zeroed(), cmeta: Mem::zeroed(), cvals: Mem::zeroed() }
+    }
+    pub fn set_driver_heartbeat(&mut self, v: i64) {
+        self.ring.buf().put::<i64>(RING_CAP as i32 + ring_buffer::CONSUMER_HEARTBEAT_OFFSET, v);
+    }
+    pub fn set_correlation_counter(&mut self, v: i64) {
+        self.ring.buf().put::<i64>(RING_CAP as i32 + ring_buffer::CORRELATION_COUNTER_OFFSET, v);
+    }
+    pub fn ring_tail(&mut self) -> i64 {
+        self.ring.buf().get::<i64>(RING_CAP as i32 + ring_buffer::TAIL_POSITION_OFFSET)
+    }
+    /// allocate counter slot `slot` as a client heartbeat counter (type 11) keyed by `registration_id`
+    pub fn put_heartbeat_counter(&mut self, slot: i32, state: i32, type_id: i32, registration_id: i64) {
+        let m = self.cmeta.buf();
+        m.put::<i32>(slot * 512, state);
+        m.put::<i32>(slot * 512 + 4, type_id);
+        m.put::<i64>(slot * 512 + 16, registration_id);
+    }
+    pub fn counter_value(&mut self, slot: i32) -> i64 {
+        self.cvals.buf().get::<i64>(slot * 128)
+    }
+}
+
+/// The conductor as `ClientConductor::new` leaves it, with harness-chosen timer state.
+pub fn conductor(b: &mut Bufs, driver_timeout_ms: Moment, linger_ms: Moment, inter_service_ms: Moment) -> ClientConductor {
+    let _ = *crate::concurrent::counters::KEY_OFFSET + *crate::concurrent::counters::TYPE_ID_OFFSET
+        + *crate::concurrent::counters::LABEL_LENGTH_OFFSET + *crate::concurrent::counters::FREE_TO_REUSE_DEADLINE_OFFSET;
+    let ring = Arc::new(match ManyToOneRingBuffer::new(b.ring.buf()) {
+        Ok(r) => r,
+        Err(_) => unreachable!(),
+    });
+    let proxy = Arc::new(DriverProxy::new(ring));
+    ClientConductor {
+        publication_by_registration_id: Default::default(),
+        exclusive_publication_by_registration_id: Default::default(),
+        subscription_by_registration_id: Default::default(),
+        counter_by_registration_id: Default::default(),
+        destination_state_by_correlation_id: Default::default(),
+        log_buffers_by_registration_id: Default::default(),
+        lingering_image_lists: vec![],
+        driver_proxy: proxy,
+        driver_listener_adapter: None,
+        counters_reader: Arc::new(CountersReader::new(b.cmeta.buf(), b.cvals.buf())),
+        counter_values_buffer: b.cvals.buf(),
+        on_new_publication_handler: Box::new(on_new_pub as fn(CString, i32, i32, i64)),
+        on_new_exclusive_publication_handler: Box::new(on_new_pub as fn(CString, i32, i32, i64)),
+        on_new_subscription_handler: Box::new(on_new_sub as fn(CString, i32, i64)),
+        error_handler: Box::new(on_error as fn(AeronError)),
+        on_available_counter_handlers: vec![Box::new(on_avail_counter as fn(&CountersReader, i64, i32))],
+        on_unavailable_counter_handlers: vec![Box::new(on_unavail_counter as fn(&CountersReader, i64, i32))],
+        on_close_client_handlers: vec![Box::new(on_close as fn())],
+        epoch_clock: Box::new(clock as fn() -> Moment),
+        driver_timeout_ms,
+        resource_linger_timeout_ms: linger_ms,
+        inter_service_timeout_ms: inter_service_ms,
+        pre_touch_mapped_memory: false,
+        is_in_callback: false,
+        driver_active: AtomicBool::from(true),
+        is_closed: AtomicBool::from(false),
+        heartbeat_timestamp: None,
+        time_of_last_do_work_ms: 0,
+        time_of_last_keepalive_ms: 0,
+        time_of_last_check_managed_resources_ms: 0,
+        arced_self: Some(dummy_conductor()),
+        padding: [0; crate::utils::misc::CACHE_LINE_LENGTH as usize],
+    }
+}
+
+fn any_time() -> u64 {
+    let t: u64 = kani::any();
+    kani::assume(t < (1 << 62));
+    t
+}
+
+fn any_timeout() -> u64 {
+    let t: u64 = kani::any();
+    kani::assume(t >= 1 && t < (1 << 40));
+    t
+}
+
+/// C11: one duty-cycle step of the liveness logic from an ARBITRARY timer state (so histories of any length reduce
+/// to this step): service-timeout close, driver-death detection, heartbeat refresh, timer-base updates.
+/// `hb_mode`: 0 = no heartbeat counter known and none in the counters buffer, 1 = none known but slot 1 holds a
+/// matching live heartbeat counter, 2 = known and active, 3 = known but no longer active.
+macro_rules! heartbeat_step {
+    ($name:ident, $hb_mode:expr) => {
+        #[kani::proof]
+        #[kani::stub(std::hash::RandomState::new, stub_random_state)]
+        fn $name() {
+            let mut b = Bufs::new();
+            let now = any_time();
+            let (t_work, t_keep, t_res) = (any_time(), any_time(), any_time());
+            kani::assume(t_work <= now && t_keep <= now && t_res <= now);
+            let (driver_timeout, inter_service) = (any_timeout(), any_timeout());
+            let driver_hb: i64 = kani::any();
+            kani::assume(driver_hb >= -1 && driver_hb < (1 << 62));
+            b.set_driver_heartbeat(driver_hb);
+            b.set_correlation_counter(77);
+            let mut c = conductor(&mut b, driver_timeout, 5000, inter_service);
+            let client_id = c.driver_proxy.client_id();
+            assert!(client_id == 77, "C11: harness: client id is the first correlation id");
+            let hb_mode: u8 = $hb_mode;
+            if hb_mode == 1 || hb_mode == 2 {
+                b.put_heartbeat_counter(1, 1, 11, client_id);
+            } else if hb_mode == 3 {
+                b.put_heartbeat_counter(1, -1, 11, client_id); // reclaimed by the driver
+            }
+            if hb_mode >= 2 {
+                c.heartbeat_timestamp = Some(Box::new(AtomicCounter::new(b.cvals.buf(), 1)));
+            }
+            c.time_of_last_do_work_ms = t_work;
+            c.time_of_last_keepalive_ms = t_keep;
+            c.time_of_last_check_managed_resources_ms = t_res;
+            unsafe {
+                SEEN.now = now;
+                SEEN.errors = 0;
+                SEEN.closes = 0;
+            }
+
+            let worked = c.on_heartbeat_check_timeouts();
+
+            let service_expired = now > t_work + inter_service;
+            let keep_due = now > t_keep + 500;
+            let res_due = now > t_res + 1000;
+            let driver_dead = keep_due && driver_hb >= 0 && now > driver_hb as u64 + driver_timeout;
+            let hb_lost = keep_due && hb_mode == 3;
+            assert!(c.is_closed() == (service_expired || hb_lost), "C11: the client closes exactly when the duty-cycle gap exceeds the inter-service timeout (or its heartbeat counter was reclaimed)");
+            assert!(c.driver_active.load(Ordering::SeqCst) == !driver_dead, "C11: the driver is declared dead exactly when its heartbeat is older than the driver timeout at a keep-alive check, never while it is younger");
+            let expected_errors = service_expired as u32 + driver_dead as u32 + hb_lost as u32;
+            assert!(unsafe { SEEN.errors } == expected_errors, "C11: each timeout is reported to the error handler exactly once");
+            assert!(unsafe { SEEN.closes } == (service_expired as u32 + hb_lost as u32), "C11: close handlers run once per close");
+            assert!(c.time_of_last_do_work_ms == now, "C11: duty-cycle time base refreshed every cycle");
+            assert!(c.time_of_last_keepalive_ms == if keep_due { now } else { t_keep }, "C11: keep-alive time base refreshed exactly when the keep-alive interval elapsed");
+            assert!(c.time_of_last_check_managed_resources_ms == if res_due { now } else { t_res }, "C11: resource-check time base refreshed exactly when due");
+            assert!(worked == (keep_due || res_due), "C11: work reported iff a periodic action ran");
+            if keep_due && (hb_mode == 1 || hb_mode == 2) {
+                assert!(c.heartbeat_timestamp.is_some() && b.counter_value(1) == now as i64, "C11: the client heartbeat is refreshed to now at every keep-alive check while its counter is live");
+            }
+            if hb_mode == 0 {
+                assert!(c.heartbeat_timestamp.is_none(), "C11: no heartbeat counter is invented when the driver allocated none");
+            }
+            if !keep_due && hb_mode == 2 {
+                assert!(b.counter_value(1) == 0, "C11: heartbeat untouched before the keep-alive interval elapsed");
+            }
+            // once the driver is dead, new requests are refused and nothing is written to the command ring
+            if driver_dead && !c.is_closed() {
+                let tail = b.ring_tail();
+                let r = c.add_publication(unsafe { CString::from_vec_unchecked(vec![b'c']) }, 5);
+                assert!(matches!(r, Err(AeronError::DriverTimeout(DriverInteractionError::Inactive))), "C11: requests after driver death are refused as Inactive");
+                assert!(b.ring_tail() == tail, "C11: a refused request writes nothing");
+                std::mem::forget(r);
+            }
+            kani::cover!(service_expired, "[must] service timeout path");
+            kani::cover!(now == t_work + inter_service, "[must] exact service-timeout boundary");
+            kani::cover!(driver_dead, "[must] driver death path");
+            kani::cover!(keep_due && driver_hb >= 0 && now == driver_hb as u64 + driver_timeout, "[must] exact driver-timeout boundary");
+            kani::cover!(!keep_due, "[must] keep-alive not due path");
+            std::mem::forget(c);
+        }
+    };
+}
+// @verif tier=quick unwind=4 fs=1100
+heartbeat_step!(c11_heartbeat_step_no_counter, 0);
+// @verif tier=quick unwind=4 fs=1100
+heartbeat_step!(c11_heartbeat_step_counter_found, 1);
+// @verif tier=quick unwind=4 fs=1100
+heartbeat_step!(c11_heartbeat_step_counter_known_active, 2);
+// @verif tier=quick unwind=4 fs=1100
+heartbeat_step!(c11_heartbeat_step_counter_reclaimed, 3);
+
+// ------------------------------------------------------------------------------------------------------------------
+// C12 — linger bookkeeping of mapped log buffers (the Arc<LogBuffers> part; mmap/munmap themselves are out of reach).
+
+fn heap_log_buffers(mem: &mut Mem<{ 3 * 64 + 4096 }>) -> LogBuffers {
+    unsafe { LogBuffers::new(mem.0.as_mut_ptr(), (3 * 64 + 4096) as isize, 64) }
+}
+
+/// One managed-resource check from an arbitrary entry state: the mapping is dropped exactly when no handle exists,
+/// it was already stamped, and strictly more than the linger period has passed since the stamp.
+// @verif tier=quick unwind=4 unwindset=swap_nonoverlapping_chunks:40
+#[kani::proof]
+#[kani::stub(std::hash::RandomState::new, stub_random_state)]
+fn c12_log_buffers_linger_step() {
+    let mut b = Bufs::new();
+    let mut logmem = Mem::<{ 3 * 64 + 4096 }>::zeroed();
+    let linger = any_timeout();
+    let mut c = conductor(&mut b, 1000, linger, 1000);
+    let lb = Arc::new(heap_log_buffers(&mut logmem));
+    let in_use: bool = kani::any();
+    let handle = if in_use { Some(lb.clone()) } else { None };
+    let stamped: bool = kani::any();
+    let stamp = any_time();
+    let now = any_time();
+    kani::assume(stamp <= now);
+    let mut defn = LogBuffersDefn::new(lb);
+    if stamped {
+        defn.time_of_last_state_change_ms = stamp;
+    }
+    c.log_buffers_by_registration_id.insert(42, defn);
+
+    c.on_check_managed_resources(now);
+
+    let still = c.log_buffers_by_registration_id.get(&42);
+    let expect_removed = !in_use && stamped && now > stamp + linger;
+    assert!(still.is_none() == expect_removed, "C12: log memory is released exactly when no handle exists and more than the linger period passed since the last handle went away");
+    if let Some(d) = still {
+        if !in_use && !stamped {
+            assert!(d.time_of_last_state_change_ms == now, "C12: the moment the last handle is found gone is stamped");
+        } else if in_use {
+            assert!(d.time_of_last_state_change_ms == if stamped { stamp } else { MAX_MOMENT }, "C12: memory in use is left alone");
+        }
+    }
+    kani::cover!(expect_removed, "[must] removal path");
+    kani::cover!(!in_use && stamped && now == stamp + linger, "[must] exact linger boundary");
+    kani::cover!(!in_use && stamped && now < linger, "[must] clock value smaller than the linger period");
+    std::mem::forget(handle);
+    std::mem::forget(c);
+}
